@@ -394,6 +394,56 @@ def files_scope(res, pid, rng, tier):
                           "directory_api_files": sorted(a_), "command_line_files": sorted(b_)})
     finally:
         shutil.rmtree(d, ignore_errors=True)
+    # the command line is the directory API with the values as typed: a reserved word with capital letters that also occurs as a secret;
+    # a run started inside the input directory, which holds ordinary files called netconan.cfg / .netconan.cfg (as does $HOME)
+    d = tempfile.mkdtemp(prefix="ncverif_")
+    cwd0, home0 = os.getcwd(), os.environ.get("HOME")
+    try:
+        import contextlib
+        rfiles = {"a.cfg": b"username admin password LabSecret\nusername b password other1zz\nsnmp-server community LABSECRET ro\nip address 11.22.33.44 255.255.255.0\n"}
+        write_tree(os.path.join(d, "in"), rfiles)
+        rcfg = fa.FaCfg(salt="demoSalt", pwd=True, reserved=["LabSecret", "MixedCaseWord"], b4=8, b6=8)
+        run_dir_api(rcfg, os.path.join(d, "in"), os.path.join(d, "o1"))
+        try:
+            with fa.LogCap(), contextlib.redirect_stderr(io.StringIO()):
+                nc.main(cli_argv(rcfg, os.path.join(d, "in"), os.path.join(d, "o2")))
+        except BaseException:  # noqa
+            pass
+        res.evaluations += 2
+        a_, b_ = read_tree(os.path.join(d, "o1")), (read_tree(os.path.join(d, "o2")) if os.path.isdir(os.path.join(d, "o2")) else {})
+        if a_ != b_:
+            fails.append({"kind": "command line and directory API produce different content", "argv": cli_argv(rcfg, "<in>", "<out>"), "input": rfiles["a.cfg"].decode(),
+                          "directory_api": (a_.get("a.cfg") or b"<missing>").decode("utf-8", "replace"), "command_line": (b_.get("a.cfg") or b"<missing>").decode("utf-8", "replace")})
+        cfiles = {"netconan.cfg": b"anonymize-ips = true\n", ".netconan.cfg": b"anonymize-ips = true\n", "r.cfg": b"ip address 11.22.33.44 255.255.255.0\nusername b password other1zz\n"}
+        write_tree(os.path.join(d, "tree"), cfiles)
+        write_tree(os.path.join(d, "home"), {".netconan.cfg": b"anonymize-ips = true\n", "netconan.cfg": b"anonymize-ips = true\n"})
+        ccfg = fa.FaCfg(salt="demoSalt", pwd=True, b4=8, b6=8)
+        try:
+            os.chdir(os.path.join(d, "tree"))
+            os.environ["HOME"] = os.path.join(d, "home")
+            run_dir_api(ccfg, ".", os.path.join(d, "c1"))
+            try:
+                with fa.LogCap(), contextlib.redirect_stderr(io.StringIO()):
+                    nc.main(cli_argv(ccfg, ".", os.path.join(d, "c2")))
+            except BaseException:  # noqa
+                pass
+        finally:
+            os.chdir(cwd0)
+            if home0 is None:
+                os.environ.pop("HOME", None)
+            else:
+                os.environ["HOME"] = home0
+        res.evaluations += 2
+        a_, b_ = read_tree(os.path.join(d, "c1")), (read_tree(os.path.join(d, "c2")) if os.path.isdir(os.path.join(d, "c2")) else {})
+        if a_ != b_:
+            bad = sorted(k for k in set(a_) | set(b_) if a_.get(k) != b_.get(k))
+            fails.append({"kind": "command line and directory API produce different content", "argv": cli_argv(ccfg, ".", "<out>"),
+                          "situation": "started inside the input directory, which (like $HOME) holds ordinary files called netconan.cfg and .netconan.cfg",
+                          "input_files": {k: v.decode() for k, v in cfiles.items()}, "differing_files": bad,
+                          "directory_api": (a_.get(bad[0]) or b"<missing>").decode("utf-8", "replace"), "command_line": (b_.get(bad[0]) or b"<missing>").decode("utf-8", "replace")})
+    finally:
+        os.chdir(cwd0)
+        shutil.rmtree(d, ignore_errors=True)
     d2 = sess.finish(post=fa.model_out_text)
     res.traces += rounds
     return dis + d2, fails
